@@ -493,6 +493,20 @@ class Ev:
         if isinstance(l, Rec) or isinstance(r, Rec):
             if op in ("Add", "Sub", "Mul", "Div", "Rem"):
                 return self.overloaded(e, [l, r], depth)
+            callee = e.get("resolved") or e.get("callee")
+            if callee and self.facts.fn(callee) is None and op in ("Eq", "Ne", "Lt", "Le", "Gt", "Ge"):
+                # `&A == &B` goes through std's reference-forwarding impl: find the in-crate impl by operand types
+                ti = "std::cmp::PartialEq::eq" if op in ("Eq", "Ne") else "std::cmp::PartialOrd::partial_cmp"
+                tys = [v.adt if isinstance(v, Rec) else "f64" for v in (l, r)]
+                for rr in self.facts.all_fns():
+                    if rr.get("trait_item") == ti and [t.replace("&", "") for t in rr["sig"]] == tys:
+                        callee = rr["fn"]
+                        break
+            if op in ("Eq", "Ne") and callee and self.facts.fn(callee) is not None:
+                v = self.apply_fn(callee, [l, r], depth)
+                return v if op == "Eq" else Sym("not", vkey(v))
+            if op in ("Lt", "Le", "Gt", "Ge") and callee and callee.endswith("partial_cmp") and self.facts.fn(callee) is not None:
+                return Sym("ord", op, vkey(self.apply_fn(callee, [l, r], depth)))
             return Sym("cmp", op, vkey(l), vkey(r))
         if isinstance(l, Poly) and isinstance(r, Poly):
             if op == "Add":
@@ -545,6 +559,8 @@ class Ev:
         for n, v in e["fields"]:
             fields[n] = self.eval(v, env, depth)
         adt = (e.get("ty") or e.get("def") or "?").split("<")[0]
+        if e.get("dk") == "Variant":
+            return Sym("ctor", e.get("def", "?").rsplit("::", 1)[-1], Rec(adt, fields))
         return Rec(adt, fields)
 
     def ev_closure(self, e, env, depth):
@@ -569,7 +585,9 @@ class Ev:
                 elif x.get("k") in ("if", "match", "for", "while", "loop"):
                     raise Unsupported("statement-level control flow (%s) at line %s" % (x["k"], x.get("ln")))
                 else:
-                    self.eval(x, env, depth)  # evaluated for Unsupported detection; value dropped
+                    sv = self.eval(x, env, depth)  # evaluated for Unsupported detection; value dropped
+                    if isinstance(sv, Sym) and sv.tag and sv.tag[0] == "diverges":
+                        return sv
         if "e" in e:
             return self.eval(e["e"], env, depth)
         return Sym("unit")
@@ -595,8 +613,68 @@ class Ev:
         f = self.eval(e["e"], dict(env), depth) if "e" in e else Sym("unit")
         return Alt([(("if", vkey(c)), t), (("else", vkey(c)), f)])
 
+    def match_pat(self, pat, val, env):
+        """Structural pattern match of a symbolic value: True / False / None (cannot decide)."""
+        k = pat.get("k")
+        if k in ("wild",):
+            return True
+        if k == "bind":
+            env[pat["id"]] = val
+            return self.match_pat(pat["sub"], val, env) if "sub" in pat else True
+        if k in ("ref", "box", "deref"):
+            return self.match_pat(pat["p"], val, env)
+        if k == "or":
+            res = [self.match_pat(p, val, env) for p in pat["ps"]]
+            if any(r is True for r in res):
+                return True
+            return None if any(r is None for r in res) else False
+        if k == "tuple":
+            if not isinstance(val, Tup) or len(val.items) != len(pat["ps"]):
+                return None
+            res = [self.match_pat(p, v, env) for p, v in zip(pat["ps"], val.items)]
+            if any(r is False for r in res):
+                return False
+            return None if any(r is None for r in res) else True
+        if k in ("ts", "path", "struct"):
+            name = pat.get("def", "?").rsplit("::", 1)[-1]
+            if isinstance(val, Sym) and val.tag and val.tag[0] == "ctor":
+                if val.tag[1] != name:
+                    return False
+                if k == "ts":
+                    if len(pat["ps"]) != len(val.tag) - 2:
+                        return None
+                    res = [self.match_pat(p, v, env) for p, v in zip(pat["ps"], val.tag[2:])]
+                    if any(r is False for r in res):
+                        return False
+                    return None if any(r is None for r in res) else True
+                if k == "struct":
+                    payload = val.tag[2] if len(val.tag) > 2 else None
+                    for n, p in pat["fields"]:
+                        if isinstance(payload, Rec) and n in payload.fields:
+                            if self.match_pat(p, payload.fields[n], env) is not True:
+                                return None
+                        else:
+                            return None
+                    return True
+                return True
+            return None
+        if k == "lit":
+            if isinstance(val, Poly) and val.const_value() is not None and pat.get("lk") in ("int", "float"):
+                c = F(str(pat["v"]).replace("_", ""))
+                return val.const_value() == (-c if pat.get("neg") else c)
+            return None
+        return None
+
     def ev_match(self, e, env, depth):
         scrut = self.eval(e["e"], env, depth)
+        # decide the arm structurally when the scrutinee's constructors are known
+        for a in e["arms"]:
+            env2 = dict(env)
+            r = self.match_pat(a["pat"], scrut, env2)
+            if r is True and "guard" not in a:
+                return self.eval(a["body"], env2, depth)
+            if r is None or (r is True and "guard" in a):
+                break
         alts = []
         for a in e["arms"]:
             env2 = dict(env)
@@ -661,6 +739,8 @@ class Ev:
                 return h(self, args, e)
         if dk.startswith("Ctor"):
             return Sym("ctor", d.rsplit("::", 1)[-1], *args)
+        if d.startswith("core::panicking::") or d.startswith("std::rt::begin_panic"):
+            return Sym("diverges", "panic")
         last = d.rsplit("::", 1)[-1]
         if last == "clone" or d.endswith("Arc::<T>::clone") or d.endswith("convert::From::from") and False:
             return args[0]
@@ -676,13 +756,17 @@ class Ev:
             adt = d.rsplit("::", 1)[0]
             empty = isinstance(args[1], Tup) and not args[1].items
             if not empty:
-                raise Unsupported("Dual::new with a non-empty variable list inside an arithmetic body")
+                return self.apply_fn(d, args, depth)
             fields = {"real": args[0], "dual": Poly({}, 1), "vars": Sym("novars")}
             if adt.endswith("Dual2"):
                 fields["dual2"] = Poly({}, 2)
             return Rec(adt, fields)
         if d.endswith("Vec::<T>::new") and not args:
             return Tup([])
+        if (d.endswith("Arc::<T>::new") or d.endswith("Box::<T>::new")) and len(args) == 1:
+            return args[0]
+        if last == "from_iter" and len(args) == 1:
+            return Sym("collect", vkey(args[0]))
         if last in ("zeros", "ones") and "ndarray" in d and len(args) == 1:
             shape = args[0].items if isinstance(args[0], Tup) else [args[0]]
             self.zero_shapes.append((last, tuple(vkey(x) for x in shape)))
@@ -705,9 +789,13 @@ class Ev:
                 return h(self, [recv] + args, e)
         if m in ERASE_METHODS and not args:
             return recv
+        if any(isinstance(a, Rec) for a in args) and not isinstance(recv, Rec) and self.facts.fn(d) is not None:
+            return self.apply_fn(d, [recv] + args, depth)
         if isinstance(recv, Poly):
             if m == "t" and not args:
                 return recv.transpose()
+            if m == "iter" and not args and recv.order >= 1:
+                return Sym("iter", recv.key())
             if m in ("len", "len_of") and recv.order >= 1:
                 ax = args[0].tag[1] if args and isinstance(args[0], Sym) and args[0].tag[0] == "axis" else None
                 return Poly.atom(("len", recv.key(), ax))
@@ -725,6 +813,10 @@ class Ev:
                 return Sym("partial_cmp", vkey(recv), vkey(args[0]))
             if m in ("eq", "ne", "lt", "le", "gt", "ge") and len(args) == 1 and isinstance(args[0], Poly):
                 return cmp_sym(m.capitalize(), recv, args[0])
+        if isinstance(recv, Sym) and recv.tag and recv.tag[0] == "iter" and m == "eq" and len(args) == 1 and isinstance(args[0], Sym) and args[0].tag[0] == "iter":
+            return Sym("arr_eq", _srt([recv.tag[1], args[0].tag[1]]))
+        if isinstance(recv, Sym) and m == "len" and not args:
+            return Poly.atom(("len", recv.key(), None))
         if isinstance(recv, Sym) and recv.tag and recv.tag[0] == "normal01?" and m in ("unwrap", "expect"):
             return Sym("normal01")
         if isinstance(recv, Sym) and recv.tag and recv.tag[0] == "normal01":
@@ -762,6 +854,10 @@ def as_poly(v):
 def cmp_sym(op, l, r):
     """Canonical comparison: (relation, l - r) with Gt/Ge mirrored to Lt/Le."""
     d = l - r
+    if op in ("Eq", "Ne") and d.t:
+        lead = sorted(d.t.items(), key=lambda kv: repr(kv[0]))[0][1]
+        if lead < 0:
+            d = -d
     flip = {"Gt": "Lt", "Ge": "Le"}
     if op in flip:
         return Sym("cmp", flip[op], (-d).key())
